@@ -1078,6 +1078,9 @@ func (e *Engine) divElim(a, b *Term, signed bool) (*Term, *Term, bool) {
 		e.tt.Eq(a, e.tt.Add(e.tt.Mul(q, b), r)),
 		e.tt.ULt(r, b),
 		e.tt.ULe(q, e.tt.Const(a.W, maxq)),
+		// q*d cannot wrap (q <= max/d) but q*d + r can (a = 0 would admit q = max/d, r = 2^W - q*d):
+		// q*d <= a excludes the wrapped solution, which makes q and r unique
+		e.tt.ULe(e.tt.Mul(q, b), a),
 	)
 	e.defOf[q] = c
 	e.defOf[r] = c
